@@ -154,8 +154,9 @@ type Evidence struct {
 }
 
 type retEntry struct {
-	k int   // loads from the result
-	p place // Par place reached
+	idx int   // which result (functions with several results)
+	k   int   // loads from the result
+	p   place // Par place reached
 }
 
 // dynCall: a call through a function value that comes from the function's own
@@ -262,12 +263,18 @@ func (e *effects) pointerful(t types.Type) bool {
 
 // ---- per-function abstract interpretation ---------------------------------------------
 
+type locKey struct {
+	v   ssa.Value
+	idx int
+}
+
 type fnState struct {
 	e        *effects
 	fn       *ssa.Function
 	val      map[ssa.Value]pset
 	contents map[int]pset
-	locID    map[ssa.Value]int
+	locID    map[locKey]int
+	tup      map[ssa.Value][]pset  // results of calls with several results, per index
 	locFn    map[int]*ssa.Function // closure objects -> their function
 	nextLoc  int
 	sum      *summary
@@ -321,12 +328,16 @@ func (f *fnState) set(v ssa.Value, s pset) {
 }
 
 // loc returns the id of the n-th abstract object attached to v.
-func (f *fnState) loc(v ssa.Value, n int) int {
-	id, ok := f.locID[v]
+func (f *fnState) loc(v ssa.Value, n int) int { return f.locI(v, 0, n) }
+
+// locI: the n-th abstract object attached to result idx of v.
+func (f *fnState) locI(v ssa.Value, idx, n int) int {
+	k := locKey{v, idx}
+	id, ok := f.locID[k]
 	if !ok {
 		id = f.nextLoc
 		f.nextLoc += depthCap + 1
-		f.locID[v] = id
+		f.locID[k] = id
 	}
 	return id + n
 }
@@ -413,7 +424,7 @@ func (f *fnState) evid(kind string, i ssa.Instruction, via *Evidence) func() *Ev
 }
 
 func (e *effects) analyse(fn *ssa.Function) {
-	f := &fnState{e: e, fn: fn, val: map[ssa.Value]pset{}, contents: map[int]pset{}, locID: map[ssa.Value]int{},
+	f := &fnState{e: e, fn: fn, val: map[ssa.Value]pset{}, contents: map[int]pset{}, locID: map[locKey]int{}, tup: map[ssa.Value][]pset{},
 		sum: e.sum(fn), varargs: map[ssa.Value][]ssa.Value{}, locFn: map[int]*ssa.Function{}}
 	for i, p := range fn.Params {
 		f.set(p, pset{place{a: i}: {}})
@@ -445,16 +456,22 @@ func (e *effects) analyse(fn *ssa.Function) {
 		}
 	}
 	// result summary
-	ret := pset{}
-	for _, b := range fn.Blocks {
-		for _, ins := range b.Instrs {
-			if r, ok := ins.(*ssa.Return); ok {
-				for _, v := range r.Results {
-					ret.addAll(f.get(v))
+	nres := fn.Signature.Results().Len()
+	for idx := 0; idx < nres; idx++ {
+		ret := pset{}
+		for _, b := range fn.Blocks {
+			for _, ins := range b.Instrs {
+				if r, ok := ins.(*ssa.Return); ok && idx < len(r.Results) {
+					ret.addAll(f.get(r.Results[idx]))
 				}
 			}
 		}
+		f.summariseResult(idx, ret)
 	}
+}
+
+func (f *fnState) summariseResult(idx int, ret pset) {
+	e := f.e
 	cur := ret
 	for k := 0; k <= depthCap && len(cur) > 0; k++ {
 		if k == depthCap {
@@ -467,7 +484,7 @@ func (e *effects) analyse(fn *ssa.Function) {
 				p = place{a: -1, fn: f.locFn[p.a]}
 			}
 			if p.isPar() || p.fn != nil {
-				re := retEntry{k: k, p: p}
+				re := retEntry{idx: idx, k: k, p: p}
 				if _, ok := f.sum.R[re]; !ok {
 					f.sum.R[re] = struct{}{}
 					e.changed = true
@@ -513,7 +530,11 @@ func (f *fnState) step(ins ssa.Instruction) {
 	case *ssa.TypeAssert:
 		f.set(x, f.get(x.X))
 	case *ssa.Extract:
-		f.set(x, f.get(x.Tuple))
+		if t, ok := f.tup[x.Tuple]; ok && x.Index < len(t) {
+			f.set(x, t[x.Index])
+		} else {
+			f.set(x, f.get(x.Tuple))
+		}
 	case *ssa.Phi:
 		for _, ed := range x.Edges {
 			f.set(x, f.get(ed))
@@ -557,38 +578,43 @@ func (f *fnState) step(ins ssa.Instruction) {
 	case *ssa.Store:
 		a := f.get(x.Addr)
 		f.write(a, f.evid("store", x, nil))
-		for p := range a {
-			if p.loc {
-				f.addContents(p.a, f.get(x.Val))
-			} else if p.glob != nil {
-				// package-level variables keep the FUNCTION values stored into them
-				// (context-free); other pointers through globals are not followed
-				f.e.storeGlobal(p.glob, f.funcsOf(f.get(x.Val)))
-			}
-		}
+		f.put(a, f.get(x.Val))
 	case *ssa.MapUpdate:
 		m := f.get(x.Map)
 		f.write(m, f.evid("map-update", x, nil))
-		for p := range m {
-			if p.loc {
-				f.addContents(p.a, f.get(x.Key))
-				f.addContents(p.a, f.get(x.Value))
-			}
-		}
+		f.put(m, f.get(x.Key))
+		f.put(m, f.get(x.Value))
 	case *ssa.Send:
 		c := f.get(x.Chan)
 		f.write(c, f.evid("send", x, nil))
-		for p := range c {
-			if p.loc {
-				f.addContents(p.a, f.get(x.X))
-			}
-		}
+		f.put(c, f.get(x.X))
 	case *ssa.Call:
 		f.call(&x.Call, x, x)
 	case *ssa.Go:
 		f.call(&x.Call, x, nil)
 	case *ssa.Defer:
 		f.call(&x.Call, x, nil)
+	}
+}
+
+// put: the cells dst now hold val.  Objects of this function record it in
+// their contents; package-level variables keep only FUNCTION values
+// (context-free).  What a callee stores into the memory of its PARAMETERS is
+// not propagated to the caller's objects ("p.load(x); p.sortInPlace()" is
+// invisible here): tried, and with interface calls joined over all
+// implementations it made every decoder's receiver appear to hold the input
+// bytes.  This is the heap-flow limit stated at the top; oracle c20 covers it.
+func (f *fnState) put(dst, val pset) {
+	if len(val) == 0 {
+		return
+	}
+	for p := range dst {
+		switch {
+		case p.loc:
+			f.addContents(p.a, val)
+		case p.glob != nil:
+			f.e.storeGlobal(p.glob, f.funcsOf(val))
+		}
 	}
 }
 
@@ -627,36 +653,65 @@ func (f *fnState) applySummary(callee *ssa.Function, args []pset, site ssa.Instr
 	if res == nil || !f.e.pointerful(res.Type()) {
 		return
 	}
-	// the result: a chain of fresh objects, plus whatever the callee says it aliases/contains
-	out := pset{place{loc: true, a: f.loc(res, 0)}: {}}
-	for m := 0; m < depthCap; m++ {
-		nx := m + 1
-		if nx >= depthCap {
-			nx = depthCap - 1
+	// the result(s): a chain of fresh objects each, plus whatever the callee says it aliases/contains
+	var rtypes []types.Type
+	if tp, ok := res.Type().(*types.Tuple); ok {
+		for i := 0; i < tp.Len(); i++ {
+			rtypes = append(rtypes, tp.At(i).Type())
 		}
-		f.addContents(f.loc(res, m), pset{place{loc: true, a: f.loc(res, nx)}: {}})
+		if f.tup[res] == nil {
+			f.tup[res] = make([]pset, tp.Len())
+		}
+	} else {
+		rtypes = []types.Type{res.Type()}
 	}
-	for re := range s.R {
-		var t pset
-		if re.p.fn != nil {
-			t = pset{re.p: {}}
-		} else {
-			if re.p.a >= len(args) || len(args[re.p.a]) == 0 {
+	all := pset{}
+	for idx, rt := range rtypes {
+		if !f.e.pointerful(rt) {
+			continue
+		}
+		out := pset{place{loc: true, a: f.locI(res, idx, 0)}: {}}
+		for m := 0; m < depthCap; m++ {
+			nx := m + 1
+			if nx >= depthCap {
+				nx = depthCap - 1
+			}
+			f.addContents(f.locI(res, idx, m), pset{place{loc: true, a: f.locI(res, idx, nx)}: {}})
+		}
+		for re := range s.R {
+			if re.idx != idx {
 				continue
 			}
-			t = f.derefN(args[re.p.a], re.p.d)
-		}
-		if re.k == 0 {
-			out.addAll(t)
-		} else {
-			k := re.k
-			if k > depthCap {
-				k = depthCap
+			var t pset
+			if re.p.fn != nil {
+				t = pset{re.p: {}}
+			} else {
+				if re.p.a >= len(args) || len(args[re.p.a]) == 0 {
+					continue
+				}
+				t = f.derefN(args[re.p.a], re.p.d)
 			}
-			f.addContents(f.loc(res, k-1), t)
+			if re.k == 0 {
+				out.addAll(t)
+			} else {
+				k := re.k
+				if k > depthCap {
+					k = depthCap
+				}
+				f.addContents(f.locI(res, idx, k-1), t)
+			}
 		}
+		if tl := f.tup[res]; tl != nil {
+			if tl[idx] == nil {
+				tl[idx] = pset{}
+			}
+			if tl[idx].addAll(out) {
+				f.changed = true
+			}
+		}
+		all.addAll(out)
 	}
-	f.set(res, out)
+	f.set(res, all)
 }
 
 func (f *fnState) call(c *ssa.CallCommon, site ssa.Instruction, res ssa.Value) {
@@ -768,8 +823,17 @@ func (f *fnState) flat(s pset) []place {
 			out = append(out, p)
 		}
 	}
-	sort.Slice(out, func(i, j int) bool { return fmt.Sprint(out[i]) < fmt.Sprint(out[j]) })
 	return out
+}
+
+func placeKey(p place) string {
+	switch {
+	case p.fn != nil:
+		return "f" + p.fn.String()
+	case p.glob != nil:
+		return "g" + p.glob.String()
+	}
+	return fmt.Sprintf("p%d.%d", p.a, p.d)
 }
 
 // dynamic: a call through the function value(s) fv.
@@ -803,10 +867,16 @@ func (f *fnState) dynamic(fv pset, args []pset, site ssa.Instruction, res ssa.Va
 		case p.isPar():
 			resolved, callback = true, true
 			dc := &dynCall{fn: p}
+			dc.key = placeKey(p)
 			for _, a := range args {
-				dc.args = append(dc.args, f.flat(a))
+				fl := f.flat(a)
+				sort.Slice(fl, func(i, j int) bool { return placeKey(fl[i]) < placeKey(fl[j]) })
+				dc.args = append(dc.args, fl)
+				dc.key += "|"
+				for _, q := range fl {
+					dc.key += placeKey(q) + ","
+				}
 			}
-			dc.key = fmt.Sprint(dc.fn, dc.args)
 			if _, ok := f.sum.D[dc.key]; !ok {
 				f.sum.D[dc.key] = dc
 				f.e.changed = true
@@ -859,11 +929,7 @@ func (f *fnState) builtin(name string, c *ssa.CallCommon, args []pset, site ssa.
 		if len(args) == 2 {
 			f.write(args[0], f.evid("copy", site, nil))
 			if f.elemPointerful(c.Args[0].Type()) {
-				for p := range args[0] {
-					if p.loc {
-						f.addContents(p.a, f.load(args[1]))
-					}
-				}
+				f.put(args[0], f.load(args[1]))
 			}
 		}
 	case "delete":
@@ -902,9 +968,9 @@ var externWriters = map[string][]int{
 	"crypto/rand.Read": {0}, "math/rand.Read": {0},
 	"encoding/binary.Read": {2}, "encoding/binary.Decode": {0}, "encoding/binary.Encode": {0},
 	"encoding/hex.Encode": {0}, "encoding/hex.Decode": {0},
-	"unicode/utf8.EncodeRune": {0},
-	"encoding/json.Unmarshal": {1},
-	"reflect.Copy": {0},
+	"unicode/utf8.EncodeRune":               {0},
+	"encoding/json.Unmarshal":               {1},
+	"reflect.Copy":                          {0},
 	"(encoding/binary.bigEndian).PutUint16": {1}, "(encoding/binary.bigEndian).PutUint32": {1}, "(encoding/binary.bigEndian).PutUint64": {1},
 	"(encoding/binary.littleEndian).PutUint16": {1}, "(encoding/binary.littleEndian).PutUint32": {1}, "(encoding/binary.littleEndian).PutUint64": {1},
 	"(*encoding/base64.Encoding).Encode": {1}, "(*encoding/base64.Encoding).Decode": {1},
